@@ -177,6 +177,13 @@ pub fn generate(seed: u64, index: u64, thorough: bool) -> Scenario {
         if rng.chance(0.15) {
             sc.eps = Some(Fx(special(&mut rng, w)));
         }
+        // one special value in every weight (all subnormal, all huge, all zero ...)
+        if rng.chance(0.06) {
+            let v = special(&mut rng, w);
+            let n = sc.x.len();
+            sc.weights = Some(vec![Fx(v); n]);
+            poisoned += n as u64;
+        }
         // non-finite model output at chosen calls
         if rng.chance(0.5) || poisoned == 0 {
             let nf = rng.usize_in(1, 2);
